@@ -352,6 +352,81 @@ pub fn off_pool(bases: Arc<Vec<Base>>) -> MutPool {
 }
 
 // ------------------------------------------------------------------------------------------------
+// M-OFF4: the protected node contains a line terminator other than LF (or such a character as *content* of a string):
+// "character for character - line breaks included".
+
+pub const OFF4_VARIANTS: usize = 14;
+const OFF4_CHARS: [&str; 7] = ["\u{b}", "\u{c}", "\r", "\u{85}", "\u{2028}", "\u{2029}", "\r\n"];
+
+fn exotic_payload(text: &str, v: usize) -> Option<String> {
+    let ch = OFF4_CHARS[v % OFF4_CHARS.len()];
+    let mut quote: Option<char> = None;
+    if v / OFF4_CHARS.len() == 0 {
+        // replace the first blank / line feed outside string and raw literals
+        for (i, c) in text.char_indices() {
+            match quote {
+                Some(q) => {
+                    if c == q {
+                        quote = None;
+                    }
+                }
+                None => {
+                    if c == '"' || c == '`' {
+                        quote = Some(c);
+                    } else if c == ' ' || c == '\n' {
+                        return Some(format!("{}{}  {}", &text[..i], ch, &text[i + 1..]));
+                    } else if c == ',' || c == '(' {
+                        return Some(format!("{}{}  {}", &text[..i + 1], ch, &text[i + 1..]));
+                    }
+                }
+            }
+        }
+        None
+    } else {
+        // as content: inside the first string literal
+        let i = text.find('"')?;
+        let rest = &text[i + 1..];
+        let j = rest.find('"')?;
+        if rest[..j].contains('\\') {
+            return None;
+        }
+        Some(format!("{}a{}b{}", &text[..i + 1], ch, &text[i + 1..]))
+    }
+}
+
+pub fn off4_pool(bases: Arc<Vec<Base>>) -> MutPool {
+    let sites: Arc<Vec<Vec<mutate::NodeRef>>> = Arc::new(bases.iter().map(|b| off_sites(&b.root)).collect());
+    let index: std::collections::HashMap<String, usize> = bases.iter().enumerate().map(|(i, b)| (b.case.origin.clone(), i)).collect();
+    let mut prefix = vec![0usize];
+    for s in sites.iter() {
+        prefix.push(prefix.last().unwrap() + s.len() * OFF4_VARIANTS);
+    }
+    MutPool {
+        name: "M-OFF4".into(),
+        bases,
+        prefix,
+        f: Box::new(move |b, j| {
+            let bi = *index.get(&b.case.origin)?;
+            let site = sites[bi].get(j / OFF4_VARIANTS)?;
+            let v = j % OFF4_VARIANTS;
+            let text = &b.case.text;
+            let at = if site.hashed { site.start - 1 } else { site.start };
+            let payload = exotic_payload(&text[site.start..site.end], v)?;
+            let directive = if (j / OFF4_VARIANTS) % 2 == 0 { "/* @typstyle off */ " } else { "// @typstyle off\n" };
+            let m = format!("{}{}{}{}{}", &text[..at], directive, &text[at..site.start], payload, &text[site.end..]);
+            let root = tree::parse_ok(&m)?;
+            if mutate::count_comments(&root) != mutate::count_comments(&b.root) + 1 {
+                return None;
+            }
+            if !directives(&root).iter().any(|d| d.in_scope) {
+                return None;
+            }
+            Some(m)
+        }),
+    }
+}
+
+// ------------------------------------------------------------------------------------------------
 // M-OFF3: the directive is separated from its node by more whitespace than one blank or one line break
 // ("directly followed, ignoring whitespace": blank lines, trailing blanks, tabs).
 
